@@ -282,7 +282,7 @@ impl SaveDirState {
                 let maybe_path = if let Some(eq_index) = arg.find('=') {
                     let after_equals = &arg[eq_index + 1..];
                     if Path::new(after_equals).exists() {
-                        out.write_all(&arg.as_bytes()[..=eq_index])?;
+                        write_shell_escaped(out, &arg.as_bytes()[..=eq_index])?;
                         after_equals
                     } else {
                         arg.as_str()
@@ -299,12 +299,7 @@ impl SaveDirState {
                     // shell escaping is needed.
                     out.write_all(maybe_path.as_bytes())?;
                 } else {
-                    for b in maybe_path.bytes() {
-                        if b" $\\".contains(&b) {
-                            out.write_all(b"\\")?;
-                        }
-                        out.write_all(&[b])?;
-                    }
+                    write_shell_escaped(out, maybe_path.as_bytes())?;
                 }
             }
         }
@@ -589,7 +584,27 @@ fn write_arg_separator(out: &mut dyn Write, is_at_file: bool) -> Result {
 
 fn write_copied_file_arg(out: &mut dyn Write, path: &Path) -> Result {
     out.write_all(b"$D/")?;
-    out.write_all(to_output_relative_path(path).as_os_str().as_encoded_bytes())?;
+    write_shell_escaped(
+        out,
+        to_output_relative_path(path).as_os_str().as_encoded_bytes(),
+    )
+}
+
+/// Writes `bytes` to `out` in a form that the shell will read back as exactly `bytes`. Anything
+/// that isn't known to be safe gets escaped.
+fn write_shell_escaped(out: &mut dyn Write, bytes: &[u8]) -> Result {
+    for &b in bytes {
+        if b == b'\n' {
+            // Backslash followed by a newline would be treated as a line continuation.
+            out.write_all(b"'\n'")?;
+            continue;
+        }
+        let is_safe = b.is_ascii_alphanumeric() || b"_@%+=:,./-".contains(&b) || !b.is_ascii();
+        if !is_safe {
+            out.write_all(b"\\")?;
+        }
+        out.write_all(&[b])?;
+    }
     Ok(())
 }
 
